@@ -234,13 +234,18 @@ fn yaml_to_mapping(y: serde_yaml::Value) -> Result<Mapping, String> {
 }
 
 fn merge_layers(t: &mut Toks) -> Result<Result<Mapping, String>, String> {
+    let r = merge_layers_group(t)?;
+    if !t.done() {
+        return Err("trailing".into());
+    }
+    Ok(r)
+}
+
+fn merge_layers_group(t: &mut Toks) -> Result<Result<Mapping, String>, String> {
     let n = t.num()?;
     let mut ys = vec![];
     for _ in 0..n {
         ys.push(p_yaml(t)?);
-    }
-    if !t.done() {
-        return Err("trailing".into());
     }
     let mut m = Mapping::new();
     for y in ys {
@@ -303,6 +308,23 @@ fn run_case(mode: &str, t: &mut Toks) -> Result<String, String> {
             }
             Err(e) => err_line(&e),
         }),
+        "value3" => {
+            // Value::rendered(&root): the second group of layers rendered against the first
+            let root = merge_layers_group(t)?;
+            let val = merge_layers(t)?;
+            Ok(match (root, val) {
+                (Err(e), _) => err_line(&e),
+                (Ok(_), Err(e)) => err_line(&e),
+                (Ok(root), Ok(m)) => match Value::Mapping(m).rendered(&root) {
+                    Ok(v) => {
+                        let mut o = String::from("ok ");
+                        canon(&v, false, &mut o);
+                        o
+                    }
+                    Err(e) => err_line(&format!("{e}")),
+                },
+            })
+        }
         "token" => {
             let s = t.string()?;
             Ok(match hooks::token_parse(&s) {
